@@ -231,6 +231,8 @@ def cmdGen : P String := do
     if probe == "ok" then
       if pname != t.name then return s!"DIFF C07 reports-other-name {feats}"
       if pdesc != t.description ++ [10] then return s!"DIFF C07 reports-other-description {feats}"
+    -- the description-level characterisation of "imports = packages used" against the view-level check
+    if importsExact t != importsOk f then return s!"DIFF C07 model-mismatch:imports-characterisation {feats}"
     -- what the theorems promise must hold at run time too
     if dom && kdf && wf != some true then return s!"DIFF C07 theorem-contradicted:wellformed {feats}"
   -- the property itself, on the observation
